@@ -103,7 +103,7 @@ def coq_compare(tag, groups, with_model):
 def sweep(ctx, with_model, full_bits, n_random, only=None, tag='C08'):
     """returns (spec_mismatches, model_mismatches): lists of dicts (block, config, inputs, impl, spec/model)."""
     py4hw = common.quiet_import()
-    blocks = c08_blocks.catalogue(py4hw, ctx.quick)
+    blocks = c08_blocks.catalogue(py4hw, ctx.quick, getattr(ctx, 'c08_policies', None))
     rng = random.Random(ctx.seed * 7919 + 8)
     groups, ncases = [], 0
     spec_bad, model_bad = [], []
@@ -195,10 +195,15 @@ def run(ctx):
         sb = common.build(['Spec/C08.vo'], timeout=600)
         if not sb['ok']:
             ctx.violation({'what': 'Spec/C08.v does not build', 'coq_error': sb['msg']}, found_input=False); return
+    py4hw = common.quiet_import()
+    pol = c08_blocks.probe_policies(py4hw)       # the width formulas of Xor2 / Equal in THIS /repo: the models follow them
+    ctx.c08_policies = pol
+    ctx.notes['probed_width_formulas'] = {'xor2_internal': pol['mid'], 'equal_xor_wire': pol['eqw']}
     full_bits, n_random = (10, 120) if ctx.quick else (14, 1000)
     spec_bad, model_bad = sweep(ctx, with_model, full_bits, n_random)
     known_checks(ctx)
-    tie_ok = (not missing) and r['ok'] and with_model and not model_bad
+    pol_ok = pol['mid'] is not None and pol['eqw'] is not None
+    tie_ok = (not missing) and r['ok'] and with_model and not model_bad and pol_ok
     reported = False
     for rec in spec_bad:
         if is_known(ctx, rec): continue
@@ -223,7 +228,8 @@ def run(ctx):
             ctx.violation({'what': what, 'block': rec['block'], 'config': rec['config'], 'inputs': rec['inputs'], 'impl_outputs': rec['impl'],
                            'model_outputs': rec['model']}, found_input=False)
         else:
-            what = ('translator rejected %s: %s' % (missing, {k: ctx.gen['errors'].get(k) for k in missing}) if missing else
+            what = ('the internal widths of Xor2 / Equal follow none of the formulas the models know (mid_a, mid_max / eqw_a, eqw_max): %s' % pol['probed'] if not pol_ok else
+                    'translator rejected %s: %s' % (missing, {k: ctx.gen['errors'].get(k) for k in missing}) if missing else
                     'Model/StructLogic.v no longer builds over the regenerated primitives: %s' % mb.get('msg') if not with_model else
                     'proof obligation no longer checks: %s in %s' % (r.get('lemma'), r.get('file')))
             ctx.violation({'what': what, 'theorem': r.get('lemma'), 'file': r.get('file'), 'coq_error': r.get('msg')}, found_input=False)
